@@ -726,7 +726,9 @@ def part_csv(ctx, impl, rng, quick, root):
         if m > 3 and tag:
             pairs[2] = pairs[0]                      # a duplicate edge whose weights are summed
         weights = gen_weights(rng, m, wk)
-        header = {'none': [], 'hash': ['# source: test', '# n m'], 'percent': ['% sym unweighted'], 'mixed': ['# first', '% second']}[hk]
+        header = {'none': [], 'hash': ['# source: test', '# n m'], 'percent': ['% sym unweighted'], 'mixed': ['# first', '% second']}.get(hk)
+        if header is None:       # 'long<L>': a comment block of L lines (a licence, a description): as long as / longer than the 100 scanned rows
+            header = ['# line %d of the description' % i for i in range(int(hk[4:]))]
         rows = [[str(a), str(b)] + ([repr(w)] if weights is not None else []) for (a, b), w in zip(pairs, weights or [None] * m)]
         text = ''.join(h + '\n' for h in header) + ''.join(d.join(r) + '\n' for r in rows)
         args = dict(root=sub, text=text, flags=fl)
@@ -759,6 +761,11 @@ def part_csv(ctx, impl, rng, quick, root):
         fl = dict(rng.choice(list(all_flag_combos())), shape=rand_shape(rng) if numeric else None, matrix_only=rng.choice([None, True, False]))
         one_csv(k, numeric, DELIMS[k % 4], rng.choice(['none', 'none', 'pos', 'pos'] + FLOAT_KINDS), fl,
                 rng.choice(['none', 'none', 'hash', 'percent', 'mixed']), rng.choice(['guess', 'guess', 'delimiter', 'sep']))
+    # long comment headers around the number of rows that scan_header looks at (100)
+    for k, L in enumerate([99, 100, 101, 150] * (1 if quick else 4)):
+        numeric = k % 2 == 0
+        fl = dict(rng.choice(list(all_flag_combos())), shape=None, matrix_only=None)
+        one_csv(2000 + k, numeric, DELIMS[k % 4], 'none', fl, 'long%d' % L, 'guess', tag='_longheader')
     # float weights: every family x every delimiter x numeric / named identifiers x directed / undirected, duplicates summed
     for rep_ in range(1 if quick else 4):
         for wk in FLOAT_KINDS:
